@@ -4,6 +4,7 @@ package ws
 
 import (
 	"bytes"
+	"io"
 	"net/url"
 
 	"github.com/gobwas/httphead"
@@ -44,8 +45,18 @@ func C10_request_wellformed() {
 		httphead.NewOption("permessage-deflate", map[string]string{"client_max_window_bits": "10"}),
 		httphead.NewOption("x-ext", nil),
 	}[:nx]
-	if vChoose("header", 2) == 1 {
+	switch vChoose("header", 4) { // the caller's extra header in three of the forms the option accepts
+	case 1:
 		d.Header = HandshakeHeaderString("X-Custom: 7\r\n")
+	case 2:
+		d.Header = HandshakeHeaderBytes("X-Custom: 7\r\n")
+	case 3:
+		d.Header = HandshakeHeaderFunc(func(w io.Writer) (int64, error) {
+			// (two writes, as a function assembling its lines would do)
+			n1, _ := w.Write([]byte("X-Custom: "))
+			n2, err := w.Write([]byte("7\r\n"))
+			return int64(n1 + n2), err
+		})
 	}
 	srv := &vServer{resp: func(key []byte) []byte { return nil }}
 	d.Upgrade(srv, u) // fails at EOF; only the request matters here
